@@ -994,6 +994,7 @@ def containment_recursion(ctx):
     _derivation by the grammar once its name resolves to an earlier definition.)"""
     db = ctx.db
     n = 0
+    guard_classes = set()
     for f in db.methods_of("CPPStructType"):
         short = f.name.split("::")[-1]
         rec = []
@@ -1008,9 +1009,83 @@ def containment_recursion(ctx):
         n += 1
         guards = [x for x in f.walk() if assigned_target(x) and (field_of(assigned_target(x)[0]) or "").startswith("CPPStructType::") and "protect" in (field_of(assigned_target(x)[0]) or "")]
         ok = bool(guards)
+        if not ok:
+            # the other idiom: a function-static set of the classes being judged, `this` registered in it by a local
+            # object (constructed from the set and `this`), and an early return when `this` was already there - which must
+            # come before the first recursive call
+            statics = {}
+            for y in f.walk():
+                if y.get("k") == "decls":
+                    for d in y["d"]:
+                        if d.get("static") or d.get("sc") == "static":
+                            statics[d["d"]] = d
+            reg = None
+            for y in f.walk():
+                if y.get("k") == "decls":
+                    for d in y["d"]:
+                        init = strip_casts(peel(d.get("init"))) if d.get("init") is not None else None
+                        if init is not None and init.get("k") == "ctor" and len(init.get("a", [])) >= 2:
+                            a0, a1 = local_ref(init["a"][0]), strip_casts(peel(init["a"][1]))
+                            if a0 is not None and a0.get("d") in statics and a1 is not None and a1.get("k") == "this":
+                                reg = d
+            if reg is not None:
+                def reentered(atom, truth, reg=reg):
+                    a = strip_casts(peel(atom)) if atom is not None else None
+                    return a is not None and a.get("k") == "call" and (local_ref(a.get("this")) or {}).get("d") == reg["d"] and not truth
+                edges = G.edges_where(f, reentered)
+                ok = bool(edges) and all(G.gated(f, c, edges) for c in rec)
+                if ok:
+                    guard_classes.add((reg.get("t") or "").replace("class ", "").strip())
         ctx.ob("R15.14", "%s|recursion-guard" % f.name, ok, f.loc(rec[0]),
                "%s() calls itself on every member's type %s a recursion guard" % (short, "behind" if ok else "WITHOUT"))
     ctx.floor("R15.14", "predicates recursing over member types", n, 5)
+    # the guard object the predicates rely on: constructing it enters the class in the set and remembers whether it was
+    # new; the question the predicates ask is the negation of that; and destroying it takes the class out again (else the
+    # next, unrelated, query about the same class would be answered "recursive").
+    for gc in sorted(guard_classes):
+        fs = [g for g in db.functions if g.name.startswith(gc + "::")]
+        ctor = [g for g in fs if g.name == "%s::%s" % (gc, gc.split("::")[-1])]
+        dtor = [g for g in fs if g.name.split("::")[-1].startswith("~")]
+        if not ctor or not dtor:
+            ctx.broken("R15.14: guard class %s has no analysed constructor/destructor" % gc)
+            continue
+        fresh = set()      # members initialised from insert(...).second
+        inserts = False
+        for g in ctor:
+            for ini in g.d.get("inits", []):
+                e = ini.get("e")
+                if e is None:
+                    continue
+                calls = [c for c in walk(e) if c.get("k") == "call" and callee_short(c) == "insert"]
+                if calls:
+                    inserts = True
+                    if any(x.get("k") == "mem" and x.get("n", "").endswith("::second") for x in walk(e)) and \
+                       not any(x.get("k") == "un" and x.get("op") == "!" for x in walk(e)):
+                        fresh.add(ini.get("m"))
+            for c in (walk(g.body) if g.body else []):
+                if c.get("k") == "call" and callee_short(c) == "insert":
+                    inserts = True
+        ctx.ob("R15.14", "%s|constructor-registers" % gc, inserts and bool(fresh), ctor[0].loc(),
+               "constructing the guard inserts the class into the in-progress set and records whether it was new (%s)" % (", ".join(sorted(fresh)) or "NOT recorded"))
+        asks = [g for g in fs if g not in ctor and g not in dtor]
+        for g in asks:
+            rets = [r for r in g.walk() if r.get("k") == "ret"]
+            good = bool(rets)
+            for r in rets:
+                e = strip_casts(peel(r.get("e")))
+                good = good and e is not None and e.get("k") == "un" and e.get("op") == "!" and \
+                    (strip_casts(peel(e["e"])) or {}).get("k") == "mem" and strip_casts(peel(e["e"])).get("n") in fresh
+            ctx.ob("R15.14", "%s|answers-not-new" % g.name, good, g.loc(),
+                   "%s() is true exactly when the class was already in the set" % g.name.split("::")[-1])
+        erased = False
+        for g in dtor:
+            for c in g.walk():
+                if c.get("k") == "call" and callee_short(c) == "erase":
+                    # only what this guard itself inserted is removed: the erase sits under the "was new" flag
+                    edges = G.edges_where(g, lambda atom, truth: truth and (strip_casts(peel(atom)) or {}).get("k") == "mem" and strip_casts(peel(atom)).get("n") in fresh)
+                    erased = bool(edges) and G.gated(g, c, edges)
+        ctx.ob("R15.14", "%s|destructor-unregisters" % gc, erased, dtor[0].loc(),
+               "destroying the guard erases the class from the set, and only when this guard inserted it")
 
 
 
